@@ -21,6 +21,15 @@ structure JPre where
   lbl : Bool
   deriving FromJson
 
+/-- A declared real hash collision: the content `b` hashes to the same name as the content `a`, at every
+collision count (FNV-1a is iterative: equal state after the content, equal state after the count). -/
+structure JColl where
+  a : List Nat
+  b : List Nat
+  sa : List Nat   -- the sizes of `a`'s / `b`'s objects the collision holds for (the hash covers the padding)
+  sb : List Nat
+  deriving FromJson
+
 structure JOp where
   op : String
   phases : List (List Nat)
@@ -30,6 +39,7 @@ structure JOp where
 structure JLPhase where
   inl : List Nat
   chunks : List (List Nat)
+  cls : Option Bool        -- the phase carries a class (delegated to an ObjectSetPhase controller)
   deriving FromJson
 
 structure Scn where
@@ -39,6 +49,7 @@ structure Scn where
   limit : Option Nat
   sizes : Option (List Nat)
   pre : Option (List JPre)
+  coll : Option (List JColl)
   ops : Option (List JOp)
   -- stream "load"
   mode : Option String
@@ -46,6 +57,7 @@ structure Scn where
   missing : Option (List (List Nat))
   owned : Option (List (List Nat))
   wait : Option Int
+  rem : Option (List Nat)  -- per phase index: state of the ObjectSetPhase object of a delegated phase
   deriving FromJson
 
 /-- Symbolic slice name: the ids of the hashed content and the collision count. -/
@@ -54,9 +66,18 @@ structure SName where
   c : Nat
   deriving DecidableEq, Repr
 
-/-- The abstract hash, instantiated injectively; real collisions enter through the `pre` oracle. -/
-def symHash (content : List Obj) (c : Nat) : SName := ⟨content.map (·.id), c⟩
-def isSymHashOf (n : SName) (content : List Obj) : Bool := n.key == content.map (·.id)
+/-- The representative of a content key under the scenario's declared hash collisions. -/
+def canonKey (coll : List JColl) (key : List Nat) : List Nat :=
+  match coll.find? (fun e => e.b == key) with
+  | some e => e.a
+  | none => key
+
+/-- The abstract hash, instantiated injectively UP TO the real FNV-32 collisions the scenario declares (the
+Go harness checks that every declared collision is real and that no undeclared one occurs); name clashes
+with other content are also scripted through the `pre` oracle. -/
+def symHash (coll : List JColl) (content : List Obj) (c : Nat) : SName := ⟨canonKey coll (content.map (·.id)), c⟩
+def isSymHashOf (coll : List JColl) (n : SName) (content : List Obj) : Bool :=
+  n.key == canonKey coll (content.map (·.id))
 
 /-! ### rendering (must agree with the Go harnesses) -/
 
@@ -95,6 +116,7 @@ structure Dep where
   limit : Nat
   sizes : List Nat
   pre : List JPre
+  coll : List JColl
   ops : List JOp
 
 def Dep.obj (d : Dep) (id : Nat) : Obj :=
@@ -107,6 +129,10 @@ def Dep.valid (d : Dep) : Bool :=
     ids.all fun id => match d.sizes[id]? with | none => false | some 0 => allowBad | some _ => true
   d.sizes.all (fun sz => sz == 0 || sz ≥ minSize) &&
   d.pre.all (fun p => okIds p.slot false && okIds p.objs false && p.c < maxC) &&
+  -- declared collisions: two different measurable contents; a representative is nobody's alias; one entry per alias
+  d.coll.all (fun e => okIds e.a false && okIds e.b false && e.a != e.b &&
+    e.sa == e.a.map (fun id => d.sizes[id]?.getD 0) && e.sb == e.b.map (fun id => d.sizes[id]?.getD 0) &&
+    !(d.coll.any fun e' => e'.b == e.a) && (d.coll.filter fun e' => e'.b == e.b).length == 1) &&
   d.ops.all fun op =>
     match op.op with
     | "chunk" => op.phases.all (okIds · true)
@@ -116,12 +142,12 @@ def Dep.valid (d : Dep) : Bool :=
 
 def toDep (s : Scn) : Option Dep := do
   let strat ← toStrategy (← s.strat)
-  some { strat, limit := ← s.limit, sizes := ← s.sizes, pre := ← s.pre, ops := ← s.ops }
+  some { strat, limit := ← s.limit, sizes := ← s.sizes, pre := ← s.pre, coll := s.coll.getD [], ops := ← s.ops }
 
 /-- The slices that exist before the first op: the first entry scripted for a slot wins. -/
 def Dep.initStore (d : Dep) : Store SName :=
   d.pre.foldl (fun st p =>
-    let n := symHash (d.objs p.slot) p.c
+    let n := symHash d.coll (d.objs p.slot) p.c
     match getSlice st n with
     | some _ => st
     | none => st ++ [(n, { objects := d.objs p.objs, ctl := p.ctl, lbl := p.lbl, owned := false })]) []
@@ -157,7 +183,7 @@ def modelDep (d : Dep) : String :=
     match d.toOp acc.1.objectSets.length jop with
     | none => (acc.1, acc.2 ++ ["BAD-OP"])
     | some op =>
-      let (w', ob) := modelStep d.limit d.strat symHash acc.1 op
+      let (w', ob) := modelStep d.limit d.strat (symHash d.coll) acc.1 op
       (w', acc.2 ++ [renderStep acc.1 w' op ob])) (d.initWorld, [])
   join ";" outs
 
@@ -169,18 +195,29 @@ structure Ld where
   missing : List (List Nat)
   owned : List (List Nat)
   wait : Option Nat
+  rem : List Nat
 
 def toLd (s : Scn) : Option Ld := do
   let w ← s.wait
   some { mode := ← s.mode, phs := ← s.phs, missing := ← s.missing, owned := ← s.owned,
-         wait := if w < 0 then none else some w.toNat }
+         wait := if w < 0 then none else some w.toNat, rem := s.rem.getD [] }
+
+def toRState : Nat → Option RState
+  | 0 => some .absent
+  | 1 => some .noStatus
+  | 2 => some .available
+  | 3 => some .unavailable
+  | 4 => some .orphaned
+  | _ => none
+
+def Ld.rstates (l : Ld) : Option (List RState) := l.rem.mapM toRState
 
 def lobj (id : Nat) : Obj := { id, size := some 1 }
 def lobjs (ids : List Nat) : List Obj := ids.map lobj
 
 /-- Slices of the load stream are named by their content (the list of ids). -/
 def Ld.template (l : Ld) : Template (List Nat) :=
-  l.phs.map fun p => { objects := lobjs p.inl, slices := p.chunks }
+  l.phs.map fun p => { objects := lobjs p.inl, slices := p.chunks, cls := p.cls.getD false }
 
 def Ld.store (l : Ld) : Store (List Nat) :=
   (l.phs.flatMap (·.chunks)).foldl (fun st ch =>
@@ -191,6 +228,9 @@ def Ld.store (l : Ld) : Store (List Nat) :=
 
 def Ld.inline (l : Ld) : List (List Obj) := l.phs.map fun p => lobjs (p.inl ++ p.chunks.flatten)
 
+/-- The inline twin the harness builds: the same phases (names, classes) with all objects inline. -/
+def Ld.twin (l : Ld) : Template (List Nat) := inlineTwinOf l.template l.inline
+
 def toMode : String → Option Mode
   | "active" => some .active
   | "archived" => some .archived
@@ -199,7 +239,13 @@ def toMode : String → Option Mode
 
 def sliceNameStr (k : List Nat) : String := "s" ++ keyStr k
 
-def callStr (c : Call) : String := s!"{if c.teardown then "T" else "R"}:p{c.phase}:{idsStr "," c.objects}"
+def callStr (c : Call) : String :=
+  let k := match c.remote, c.teardown with
+    | false, false => "R"   -- ReconcilePhase (in-process worker)
+    | false, true => "T"    -- TeardownPhase (in-process worker)
+    | true, false => "Q"    -- ObjectSetPhase created with these .spec.objects
+    | true, true => "X"     -- ObjectSetPhase deleted
+  s!"{k}:p{c.phase}:{idsStr "," c.objects}"
 
 def resStr : CRes → String
   | .ok => "ok" | .err => "err" | .preflight => "pf"
@@ -207,18 +253,20 @@ def resStr : CRes → String
 def ctlStr (withU : Bool) (o : CtlOut (List Nat)) : String :=
   let a := match o.archived with | none => "-" | some true => "True" | some false => "False"
   let u := if withU then s!" U={join "," (o.updates.map sliceNameStr)}" else ""
-  s!"{resStr o.res} K={join "+" (o.calls.map callStr)}{u} A={a} F={if o.finalizerRemoved then "removed" else "kept"}"
+  let v := match o.available with | none => "-" | some true => "True" | some false => "False"
+  s!"{resStr o.res} K={join "+" (o.calls.map callStr)}{u} A={a} F={if o.finalizerRemoved then "removed" else "kept"}" ++
+  s!" V={v} I={if o.inTransition then "True" else "-"}"
 
 def modelLd (l : Ld) : String :=
   if l.mode == "load" then
     let (_, upd, phases, ok) := loadPhases l.store [] l.template
     s!"L {if ok then "ok" else "err"} P={join "/" (phases.map (idsStr ","))} U={join "," (upd.map sliceNameStr)}"
-  else match toMode l.mode with
-    | none => "BAD-SCN"
-    | some m =>
-      let sliced := controller m l.store l.template l.wait
-      let inline := controller m ([] : Store (List Nat)) (inlineTwin l.inline) l.wait
+  else match toMode l.mode, l.rstates with
+    | some m, some rem =>
+      let sliced := controller m l.store l.template rem l.wait
+      let inline := controller m ([] : Store (List Nat)) l.twin rem l.wait
       s!"C {ctlStr true sliced} ~ {ctlStr false inline}"
+    | _, _ => "BAD-SCN"
 
 def model (s : Scn) : String :=
   match s.t with
@@ -299,10 +347,27 @@ def chunkWhy (limit : Nat) (strat : Strategy) (objs : List Obj) : ChunkObs → S
     else if strat == .binpack && !overflows limit objs then "chunked-although-nothing-overflowed"
     else "shape-or-limit"
 
-def deployWhy (s : SpecState SName) (desired : List (List Obj)) (o : DeployObs SName) : String :=
-  if !lossless desired o then "lossless"
+/-- Where `lossless` fails (message only): the first phase whose slices do not hold exactly its objects. -/
+def losslessWhy (desired : List (List Obj)) (o : DeployObs SName) : String :=
+  match o.tmpl with
+  | none => "no-template"
+  | some t =>
+    if t.length != desired.length then s!"phase-count tmpl={t.length} desired={desired.length}"
+    else
+      match (List.range t.length).find? (fun i =>
+          (t[i]?.bind fun ph => decodePhase o.store ph) != desired[i]?) with
+      | some i =>
+        let ph : Phase SName := t[i]?.getD { objects := [], slices := [] }
+        let got := match decodePhase o.store ph with | some l => idsStr "," l | none => "missing-slice"
+        let held := ph.slices.map fun n =>
+          s!"{nameStr n}=" ++ (match getSlice o.store n with | some sl => idsStr "_" sl.objects | none => "?")
+        s!"phase={i} want={idsStr "," (desired.getD i [])} referenced-slices-hold={got} [{join " " held}]"
+      | none => "slice-not-controlled-by-deployment"
+
+def deployWhy (d : Dep) (s : SpecState SName) (desired : List (List Obj)) (o : DeployObs SName) : String :=
+  if !lossless desired o then "lossless " ++ losslessWhy desired o
   else if !failSafe s o then "fail-safe"
-  else if !namedByContent isSymHashOf s o then "named-by-content"
+  else if !namedByContent (isSymHashOf d.coll) s o then "named-by-content"
   else if !noReuse s o then "name-reused"
   else if !sameContentSameName o then "same-content-different-name"
   else if !gcSafe s o then "gc"
@@ -326,7 +391,7 @@ def diagnoseDep (d : Dep) (ops : List (JOp × Op)) (obs : List (Obs SName)) : St
   let mut s : SpecState SName := stateOf w0
   let mut i := 0
   for ((jop, op), ob) in ops.zip obs do
-    let (s', ok) := specStep isSymHashOf d.limit d.strat s op ob
+    let (s', ok) := specStep (isSymHashOf d.coll) d.limit d.strat s op ob
     if !ok then
       match op, ob with
       | .chunk phases, .chunk outs =>
@@ -336,7 +401,7 @@ def diagnoseDep (d : Dep) (ops : List (JOp × Op)) (obs : List (Obs SName)) : St
             return s!"bad chunk step={i} phase={j} {chunkWhy d.limit d.strat p o} got={chunkObsStr o}"
           j := j + 1
         return s!"bad chunk step={i} phase-count"
-      | .deploy desired, .deploy o => return s!"bad {deployWhy s desired o} step={i} op={jop.op}"
+      | .deploy desired, .deploy o => return s!"bad {deployWhy d s desired o} step={i} op={jop.op}"
       | _, _ => return s!"bad shape step={i} op={jop.op}"
     s := s'
     i := i + 1
@@ -344,6 +409,9 @@ def diagnoseDep (d : Dep) (ops : List (JOp × Op)) (obs : List (Obs SName)) : St
 
 def monitorDep (d : Dep) (out : String) : String := Id.run do
   if !d.valid then return (if out == "BAD-SCN" then "ok" else "bad bad-scn-expected")
+  -- the harness aborts when the real hash function disagrees with the scenario's declared collision structure
+  if out.startsWith "BAD-COLL" then return s!"bad declared-collision-not-real {out.take 120}"
+  if out.startsWith "UNDECLARED-COLLISION" then return s!"bad undeclared-hash-collision {out.take 120}"
   if out.contains '!' then return s!"bad touched {out.take 120}"
   if out.startsWith "PANIC" then return s!"bad panic {out.take 160}"
   let steps := if d.ops.isEmpty then [] else out.splitOn ";"
@@ -366,7 +434,7 @@ def monitorDep (d : Dep) (out : String) : String := Id.run do
       | _ => pure ()
     | _, _ => return s!"bad parse step={i} {st.take 120}"
     i := i + 1
-  if checkRun isSymHashOf d.limit d.strat (stateOf d.initWorld) (ops.map (·.2)) obs then return "ok"
+  if checkRun (isSymHashOf d.coll) d.limit d.strat (stateOf d.initWorld) (ops.map (·.2)) obs then return "ok"
   return diagnoseDep d ops obs ++ s!" out={out.take 160}"
 
 /-! ### stream "load": monitor -/
@@ -378,24 +446,65 @@ def parseSliceName? (s : String) : Option (List Nat) := do
 def parseCall? (s : String) : Option Call :=
   match s.splitOn ":" with
   | [k, p, ids] => do
-    let teardown ← match k with | "T" => some true | "R" => some false | _ => none
+    let (teardown, remote) ← match k with
+      | "T" => some (true, false) | "R" => some (false, false)
+      | "X" => some (true, true) | "Q" => some (false, true) | _ => none
     let phase ← parseNat? (← field? "p" p)
-    some { teardown, phase, objects := lobjs (← parseIds? "," ids) }
+    some { teardown, phase, objects := lobjs (← parseIds? "," ids), remote }
   | _ => none
 
 def parseCtl? (fs : List String) : Option (CtlOut (List Nat)) :=
-  let go (res k u a f : String) : Option (CtlOut (List Nat)) := do
+  let go (res k u a f v i : String) : Option (CtlOut (List Nat)) := do
     let res ← match res with | "ok" => some CRes.ok | "err" => some .err | "pf" => some .preflight | _ => none
     let calls ← (parseList "+" (← field? "K=" k)).mapM parseCall?
     let updates ← (parseList "," (← field? "U=" u)).mapM parseSliceName?
     let archived ← match ← field? "A=" a with
       | "-" => some none | "True" => some (some true) | "False" => some (some false) | _ => none
     let finalizerRemoved ← match ← field? "F=" f with | "removed" => some true | "kept" => some false | _ => none
-    some { res, calls, updates, archived, finalizerRemoved }
+    let available ← match ← field? "V=" v with
+      | "-" => some none | "True" => some (some true) | "False" => some (some false) | _ => none
+    let inTransition ← match ← field? "I=" i with | "True" => some true | "-" => some false | _ => none
+    some { res, calls, updates, archived, finalizerRemoved, available, inTransition }
   match fs with
-  | [res, k, u, a, f] => go res k u a f
-  | [res, k, a, f] => go res k "U=" a f
+  | [res, k, u, a, f, v, i] => go res k u a f v i
+  | [res, k, a, f, v, i] => go res k "U=" a f v i
   | _ => none
+
+/-- Which part of `loadOk` fails (for the message only; the verdict is `loadOk`). -/
+def loadWhy (l : Ld) (o : LoadObs (List Nat)) : String :=
+  match decode l.store l.template with
+  | none => "load-succeeded-although-a-slice-is-missing"
+  | some d =>
+    if !o.ok then "load-failed-although-all-slices-exist"
+    else
+      match (List.range d.length).find? (fun i => o.phases[i]? != d[i]?) with
+      | some i =>
+        let cls := match l.template[i]? with | some ph => ph.cls | none => false
+        s!"load-not-inverse phase={i} delegated={cls} want={idsStr "," (d.getD i [])} loaded={idsStr "," (o.phases.getD i [])}"
+      | none =>
+        if o.phases.length != d.length then "load-not-inverse phase-count"
+        else
+          match (refs l.template).find? (fun n =>
+              !((match getSlice l.store n with | some s => s.owned | none => false) || o.updates.contains n)) with
+          | some n => s!"load-ownerref-missing slice={sliceNameStr n}"
+          | none => "load-not-inverse ?"
+
+/-- Which visible component differs between the sliced run and the inline twin (message only). -/
+def ctlWhy (l : Ld) (sliced inline : CtlOut (List Nat)) : String :=
+  match decode l.store l.template with
+  | none => "missing-slice-not-a-clean-failure"
+  | some _ =>
+    if sliced.calls != inline.calls then
+      match (List.range (max sliced.calls.length inline.calls.length)).find? (fun i => sliced.calls[i]? != inline.calls[i]?) with
+      | some i =>
+        let str := fun (c : Option Call) => match c with | some c => callStr c | none => "-"
+        s!"calls call={i} sliced={str sliced.calls[i]?} inline={str inline.calls[i]?}"
+      | none => "calls"
+    else if sliced.res != inline.res then "result"
+    else if sliced.available != inline.available then "available-condition"
+    else if sliced.inTransition != inline.inTransition then "in-transition-condition"
+    else if sliced.archived != inline.archived then "archived-condition"
+    else "finalizer"
 
 def monitorLd (l : Ld) (out : String) : String :=
   if out.contains '!' then s!"bad touched {out.take 120}"
@@ -411,17 +520,17 @@ def monitorLd (l : Ld) (out : String) : String :=
         some { ok, phases, updates }
       match obs with
       | none => s!"bad load-parse {out.take 120}"
-      | some o => if loadOk l.store l.template o then "ok" else s!"bad load-not-inverse got={out.take 160}"
+      | some o => if loadOk l.store l.template o then "ok" else s!"bad {loadWhy l o} got={out.take 160}"
     | _ => s!"bad load-parse {out.take 120}"
-  else match toMode l.mode with
-    | none => if out == "BAD-SCN" then "ok" else "bad bad-scn-expected"
-    | some _ =>
+  else match toMode l.mode, l.rstates with
+    | none, _ | _, none => if out == "BAD-SCN" then "ok" else "bad bad-scn-expected"
+    | some _, some _ =>
       match out.splitOn " ~ " with
       | [a, b] =>
         match parseCtl? ((a.splitOn " ").drop 1), parseCtl? (b.splitOn " ") with
         | some sliced, some inline =>
           if ctlOk l.store l.template sliced inline then "ok"
-          else s!"bad sliced-differs-from-inline mode={l.mode} got={out.take 200}"
+          else s!"bad sliced-differs-from-inline {ctlWhy l sliced inline} mode={l.mode} got={out.take 200}"
         | _, _ => s!"bad ctl-parse {out.take 120}"
       | _ => s!"bad ctl-parse {out.take 120}"
 
